@@ -22,7 +22,7 @@ from WallGo.exceptions import WallGoError
 from symx import core, npx
 from symx.core import AND, OR, NOT, Cond, Sym, eq, ge, gt, le, lt, ne
 from symx.harness import HarnessDef
-from props.hydrokit import ScipyStubs
+from props.hydrokit import ScipyStubs, tolerance_claims
 from props.c02 import make_hydro, arctan_axioms, flux_claims, gsq
 
 EXPLANATION = __doc__
@@ -105,6 +105,7 @@ def h_findvwlte(h, via_manager):
         out = m.wallSpeedLTE()
     else:
         out = hy.findvwLTE()
+    tolerance_claims(h, st, hy, "findvwLTE: ")
     cs_hi = real_csq(hy.Tnucl)
     matches = [r for r in log if r[0] == "match"]
     rs = [c for c in st.calls if c[0] == "root_scalar"]
